@@ -25,7 +25,7 @@ VERIF = Path(__file__).resolve().parent.parent
 REPO = Path(os.environ.get("VERIF_REPO", "/repo"))
 BUILD = VERIF / ".build"
 LEAN = VERIF / "lean"
-EVID = VERIF / "evidence"
+EVID = Path(os.environ.get("VERIF_EVIDENCE_DIR", str(VERIF / "evidence")))   # selftest redirects it
 REPLAYS = EVID / "replays"
 JOBS = os.cpu_count() or 8
 
@@ -287,7 +287,12 @@ def audit(prop_modules):
     af = LEAN / ".audit" / ("audit_%s_%d.lean" % (tag, os.getpid()))
     af.write_text("".join("import %s\n" % m for m in prop_modules) + "".join("#print axioms %s\n" % t for t in thms))
     try:
-        p = sh(["lake", "env", "lean", str(af)], cwd=LEAN, timeout=1200)
+        with Lock("lake"):     # never while another check's `lake build` rewrites .olean files
+            p = sh(["lake", "env", "lean", str(af)], cwd=LEAN, timeout=1200)
+            text = p.stdout + p.stderr
+            if "does not exist" in text or "unknown module" in text:    # a module was being rebuilt: build ours, retry once
+                sh(["lake", "build", *prop_modules], cwd=LEAN, timeout=3600)
+                p = sh(["lake", "env", "lean", str(af)], cwd=LEAN, timeout=1200)
     finally:
         af.unlink(missing_ok=True)
     text = p.stdout + p.stderr
